@@ -184,6 +184,12 @@ func (g *mgen) effectStmt() P {
 			e = lit(v + "++")
 		}
 	}
+	return g.stmtSite(e)
+}
+
+// stmtSite renders an expression statement; it is the expression/statement-position rewrite site:
+// `e;` <-> `(e, 0);` <-> `void (e);` <-> `var t = (e);` (t fresh; the value is used, not discarded)
+func (g *mgen) stmtSite(e P) P {
 	switch {
 	case g.on("stmtpos_comma"):
 		return cat(lit("("), e, lit(", 0); "))
@@ -194,6 +200,28 @@ func (g *mgen) effectStmt() P {
 		return P{e.A + "; ", "var " + t + " = (" + e.B + "); "}
 	}
 	return cat(e, lit("; "))
+}
+
+// evalOfSource: the "replace a function by the evaluation of its own source text" rewrite, in the form that
+// leaves NO syntactic closure behind: a direct eval of the function's source (what toString() returns) in the
+// same position resolves free variables in the same scope.
+func evalOfSource(f P) P {
+	return P{"(" + f.A + ")", "eval(" + fmt.Sprintf("%q", "("+f.B+")") + ")"}
+}
+
+// an update of a property whose [[Set]] fails (frozen object, getter-only accessor, non-writable data
+// property): TypeError in strict code, silently ignored in sloppy code, in EVERY syntactic position
+func (g *mgen) failingUpdate() P {
+	g.feat["failing_set_update"] = true
+	o := g.fresh("o")
+	decl := []string{
+		"var " + o + " = Object.freeze({ p: 1 }); ",
+		"var " + o + " = { get p() { return 1; } }; ",
+		"var " + o + " = Object.defineProperty({}, \"p\", { value: 1, writable: false }); ",
+		"var " + o + " = Object.seal(Object.defineProperty({ q: 2 }, \"p\", { value: 1, writable: false, configurable: true })); ",
+	}[g.r.Intn(4)]
+	upd := []string{o + ".p++", o + ".p--", "++" + o + ".p", o + ".p += 1", o + "[\"p\"]++"}[g.r.Pick(40, 25, 10, 10, 15)]
+	return cat(lit(decl+"try { "), g.stmtSite(lit(upd)), lit("log(\"nothrow\"); } catch (err) { log(err instanceof TypeError ? \"TE\" : \"other\"); } log("+o+".p); "))
 }
 
 func (g *mgen) dead() P {
@@ -276,6 +304,9 @@ func (g *mgen) funcValue() (P, string) {
 	}
 	f := cat(lit("function "+name+"("+params+") { "), body, lit("}"))
 	if g.on("tostring_eval") {
+		if g.r.Bool() {
+			return evalOfSource(f), name
+		}
 		return P{"(" + f.A + ")", `eval("(" + (` + f.B + `).toString() + ")")`}, name
 	}
 	return cat(lit("("), f, lit(")")), name
@@ -298,7 +329,11 @@ func (g *mgen) stmt() P {
 		}
 		return g.effectStmt()
 	}
-	switch g.r.Pick(16, 18, 10, 7, 8, 4, 4, 5, 5, 6, 4, 4, 5, 4) {
+	switch g.r.Pick(16, 18, 10, 7, 8, 4, 4, 5, 5, 6, 4, 4, 5, 4, 5, 5) {
+	case 14:
+		return g.failingUpdate()
+	case 15:
+		return g.forLetOnlyEvalCapture()
 	case 0:
 		return g.logStmt()
 	case 1:
@@ -418,6 +453,33 @@ func (g *mgen) stmt() P {
 		g.feat["closure"] = true
 		return s
 	}
+}
+
+// for (let i ...) whose variable is captured by ONE closure per iteration and by nothing else: under the
+// tostring_eval rewrite that closure is produced by a direct eval, so the loop variable is visible to eval only
+func (g *mgen) forLetOnlyEvalCapture() P {
+	g.feat["for_let_single_closure"] = true
+	i, fs, fn := g.fresh("i"), g.fresh("fs"), g.fresh("fn")
+	saveV := g.vars
+	body := g.stmts(g.r.Intn(2))
+	g.vars = saveV
+	f := lit([]string{"function " + fn + "() { return " + i + "; }", "function " + fn + "(q) { return " + i + " * 10 + (q | 0); }", "() => " + i}[g.r.Intn(3)])
+	site := cat(lit("("), f, lit(")"))
+	if g.on("tostring_eval") {
+		site = evalOfSource(f)
+	}
+	second := ""
+	if g.r.Chance(40) {
+		second = ", j" + i + " = 10"
+	}
+	upd := i + "++"
+	use := i
+	if second != "" {
+		upd += ", j" + i + "--"
+		use = i + " + j" + i
+	}
+	return cat(lit("var "+fs+" = []; for (let "+i+" = 0"+second+"; "+i+" < "), g.literal2(2, 4), lit("; "+upd+") { log("+use+"); "), body,
+		lit(fs+".push("), site, lit("); } "+fs+".forEach(function (h) { log(h(1)); }); "))
 }
 
 // a small positive integer literal used as a loop bound (kept a const2var site)
